@@ -63,6 +63,11 @@ def e1_check(ctx, res, profile, n_quick, n_thorough, steps, relevant, nontrivial
     probe_regressions(ctx, res, binary, hooks)
     n = n_quick if ctx.quick else n_thorough
     st = steps if ctx.quick else (steps_thorough or steps)
+    mine = (ctx.prop,) + tuple(also_props)
+    if "stop_props" not in profile:
+        # an episode goes on after a divergence that concerns other properties only (the model resynchronises
+        # from the snapshot); it stops at the first one this check has to report
+        profile = dict(profile, stop_props=list(mine))
     seeds = ctx.seeds(n, profile.get("name", "e1"))
     results = e1.run_many(binary, hooks, seeds, st, profile)
     tot, cover, shapes, viol = e1.merge(results)
@@ -72,7 +77,6 @@ def e1_check(ctx, res, profile, n_quick, n_thorough, steps, relevant, nontrivial
         if relevant(t):
             res.distinct.add(k)
     res.rule = nontrivial_rule
-    mine = (ctx.prop,) + tuple(also_props)
     other = collections.Counter()
     for seed, v in viol:
         if any(p in v["props"] for p in mine):
